@@ -307,9 +307,11 @@ func FieldOptions(t *rapid.T, f *ir.File, c *ir.Config, o KOpts) {
 		cts := []string{"StringCustom", "github.com/acme/api/wrappers.Traits", "wrappers.Labels", "a/b.C"}
 		for i, oc := range occ {
 			fl := oc.Field
-			if oc.Embed || isExcluded(oc) || oc.FullKey == "" || fl.Oneof != "" || fl.Card == ir.Map || fl.CustomType != "" || fl.Kind == ir.KMessage {
+			if oc.Embed || isExcluded(oc) || oc.FullKey == "" || fl.Oneof != "" || fl.Card == ir.Map || fl.CustomType != "" || fl.Kind == ir.KMessage || fl.Kind == ir.KTimestamp || fl.Kind == ir.KDuration {
 				continue
 			}
+			// Temporal kinds are left out: the harness's hooks render field values as JSON, and
+			// encoding/json rejects instants whose year (in their zone) is outside [0, 9999].
 			// A Message.Field exclusion/override of the same field elsewhere is unaffected.
 			pc := p + 6
 			if o.CustomRich {
